@@ -1,5 +1,6 @@
 import VaxisModel.Driver.Common
 import VaxisModel.Model.Vxfw
+import VaxisModel.Model.VxfwErr
 import VaxisModel.Spec.Routing
 
 /-! Driver for C15, stream `C15` (handler level: the unexported focus / mouse handlers, hit test,
@@ -79,10 +80,27 @@ partial def pCmds (n : Nat) (ts : Toks) : Option (List Cmd × Toks) :=
     pure (c :: rest, ts)
 end
 
-def pScript (ts : Toks) : Option (List Cmd × Toks) := do
+/-- Script entries; a top-level entry `10` is "this call returns an error" (command ignored). -/
+partial def pEntries (n : Nat) (ts : Toks) : Option (List Cmd × List Bool × Toks) :=
+  match n with
+  | 0 => some ([], [], ts)
+  | n + 1 =>
+    match ts with
+    | "10" :: r => do
+      let (cs, fs, ts) ← pEntries n r
+      pure (.nil :: cs, true :: fs, ts)
+    | _ => do
+      let (c, ts) ← pCmd ts
+      let (cs, fs, ts) ← pEntries n ts
+      pure (c :: cs, false :: fs, ts)
+
+def pScriptE (ts : Toks) : Option (List Cmd × List Bool × Toks) := do
   let ts ← pKw "S" ts
   let (n, ts) ← pNat ts
-  pCmds n ts
+  pEntries n ts
+
+def pScript (ts : Toks) : Option (List Cmd × Toks) :=
+  (pScriptE ts).map fun (c, _, r) => (c, r)
 
 def pTreeKw (k : String) (ts : Toks) : Option (STree × Toks) := do
   let ts ← pKw k ts
@@ -121,9 +139,10 @@ def flagsOf (s : St) : String :=
 
 def hitsStr (l : List Hit) : String := joinOr (l.map fun h => s!"{h.col}.{h.row}.{h.w}")
 
-def stateStr (s : St) : String :=
+def stateStr (s : St) (err : Bool := false) : String :=
   let st := if s.stuck then ";stuck" else ""
-  s!"{logOf s.trace};f={s.focused};p={joinOr (s.path.map toString)};x={flagsOf s};h={hitsStr s.lastHits};m={b01 s.mouse.isSome};t={joinOr ((titlesOf s.trace).map toString)}{st}"
+  let e := if err then ";e=1" else ""
+  s!"{logOf s.trace};f={s.focused};p={joinOr (s.path.map toString)};x={flagsOf s};h={hitsStr s.lastHits};m={b01 s.mouse.isSome};t={joinOr ((titlesOf s.trace).map toString)}{e}{st}"
 
 partial def treeStr : STree → String
   | .node i w h ch =>
@@ -178,6 +197,7 @@ structure Impl where
   m : Bool
   t : List Nat
   q : Bool := false
+  e : Bool := false     -- the entry point returned an error
   deriving Inhabited
 
 def kv (k : String) (s : String) : Option String :=
@@ -194,7 +214,8 @@ def parseImpl (s : String) : Option Impl := do
   let m := match get "m" with | some v => v == "1" | none => false
   let t ← match get "t" with | some v => commaNats? v | none => some []
   let q := match get "q" with | some v => v == "1" | none => false
-  pure { log, f, p, x, h, m, t, q }
+  let e := match get "e" with | some v => v == "1" | none => false
+  pure { log, f, p, x, h, m, t, q, e }
 
 /-! ### oracle pieces (evaluated on the implementation's output) -/
 
@@ -235,16 +256,53 @@ def sortNats (l : List Nat) : List Nat := l.mergeSort (· ≤ ·)
 
 def sameSet (a b : List Nat) : Bool := a.all b.contains && b.all a.contains
 
+/-- The calls of a log with their index and whether the script makes them fail. -/
+def callsWithFail (fails : List Bool) (log : List Entry) : List (Entry × Bool) :=
+  ((log.filter fun | .call .. => true | _ => false).zipIdx).map fun (e, k) => (e, fails.getD k false)
+
+def isFocusNote : Entry → Bool
+  | .call _ .focusIn _ => true
+  | .call _ .focusOut _ => true
+  | _ => false
+
+/-- Error plumbing evaluated on the implementation's output: an error is returned iff a call
+other than a FocusIn/FocusOut notification of `focusWidget` (whose errors are logged / dropped)
+failed, and then that call is the last thing in the log. -/
+def errChecks (fails : List Bool) (now : Impl) : Option String :=
+  let cs := callsWithFail fails now.log
+  let hard := cs.filter fun (e, f) => f && !isFocusNote e
+  if now.e then
+    match cs.getLast? with
+    | some (e, true) =>
+      if isFocusNote e then some "FAIL error: an error of a FocusIn/FocusOut handler was returned (focusWidget's errors are logged)"
+      else if hard.length != 1 then some "FAIL error: handlers were called after a handler had returned an error"
+      else if now.log.getLast? != some e then some "FAIL error: something happened after the failing handler call"
+      else none
+    | _ => some "FAIL error: an error was returned but the last handler call did not fail"
+  else if !hard.isEmpty then some "FAIL error: a handler returned an error and it was not passed on"
+  else none
+
+/-- The trace used for the focus pairing: a FocusOut whose handler failed cancels the focus change. -/
+def dropFailedFocusOut (fails : List Bool) (log : List Entry) : List Entry :=
+  let rec go (k : Nat) : List Entry → List Entry
+    | [] => []
+    | .call w ev ph :: r =>
+      if ev = .focusOut ∧ fails.getD k false then go (k + 1) r else .call w ev ph :: go (k + 1) r
+    | e :: r => e :: go k r
+  go 0 log
+
 /-- Checks shared by all state ops. `pre` = atoms executed before the first call (for `cmd`).
 `consumeRule`: `none` = consume' must be consume ∨ executed, `some b` = must be `b`. -/
 def commonChecks (prevF : Nat) (prevX : List Bool) (hover : List Nat) (script : List Cmd) (pre : List Atom)
-    (now : Impl) (consumeRule : Option Bool) : Option String × List Nat :=
+    (now : Impl) (consumeRule : Option Bool) (fails : List Bool := []) : Option String × List Nat :=
   let tr := implTrace script now.log
+  let trF := implTrace script (dropFailedFocusOut fails now.log)
   let atoms := pre ++ executedAtoms script now.log
   -- focus notifications in pairs
   let hov' := (hoverRun hover tr)
   let focusMsg : Option String :=
-    match focusRun prevF false tr with
+    if now.e then none else
+    match focusRun prevF false trF with
     | some f' => if some f' = now.f then none
                  else some s!"FAIL focus: last FocusIn went to {f'} but focused widget is {now.f.getD 0}"
     | none =>
@@ -258,7 +316,7 @@ def commonChecks (prevF : Nat) (prevX : List Bool) (hover : List Nat) (script : 
     else if get 1 now.x != want 1 [.refresh] then some "FAIL commands: refresh flag wrong"
     else if get 2 now.x != want 2 [.quit] then some "FAIL commands: quit flag wrong"
     else if get 4 now.x != want 4 [.debug] then some "FAIL commands: debug flag wrong"
-    else if get 3 now.x != (match consumeRule with | some b => b | none => want 3 [.consume]) then
+    else if !now.e && get 3 now.x != (match consumeRule with | some b => b | none => want 3 [.consume]) then
       some "FAIL commands: consume flag wrong"
     else if sortNats now.t != sortNats (atoms.filterMap fun | .other k => some k | _ => none) then
       some "FAIL commands: title commands not executed exactly once"
@@ -266,9 +324,9 @@ def commonChecks (prevF : Nat) (prevX : List Bool) (hover : List Nat) (script : 
   let hoverMsg : Option String :=
     match hov' with
     | none => some "FAIL hover: MouseEnter/MouseLeave do not alternate for some widget"
-    | some hs => if sameSet hs (now.h.map (·.w)) then none
+    | some hs => if now.e || sameSet hs (now.h.map (·.w)) then none
                  else some "FAIL hover: entered widgets differ from the widgets under the pointer"
-  let msg := match flagMsg with
+  let msg := match (errChecks fails now).orElse fun _ => flagMsg with
     | some m => some m
     | none => match hoverMsg with
       | some m => some m
@@ -297,6 +355,9 @@ def fuelDefault : Nat := 40
 def mkOracle (caps : List Nat) (script : List Cmd) : Oracle :=
   { h := fun _ _ _ k => script.getD k .nil, captures := fun w => caps.contains w }
 
+def mkEOracle (caps : List Nat) (script : List Cmd) (fails : List Bool) : EOracle :=
+  { o := mkOracle caps script, fails := fun _ _ _ k => fails.getD k false }
+
 def bad : String := "bad-op\tbad-op\tbad-op"
 
 def firstMsg (l : List (Option String)) : String :=
@@ -324,27 +385,29 @@ def stepState (d : DS) (toks : Toks) (impl : String) : Option (DS × String) := 
       | "u" :: n :: r => n.toNat?.map fun n => (Ev.custom n, r)
       | "i" :: r => some (Ev.init, r)
       | _ => none)
-    let (script, _) ← pScript rest
-    let o := mkOracle d.caps script
-    let m := handleEvent o fuelDefault (fresh d.model) ev
+    let (script, fails, _) ← pScriptE rest
+    let eo := mkEOracle d.caps script fails
+    let o := eo.o
+    let (m, merr) := eHandleEvent eo fuelDefault (fresh d.model) ev
     let now ← parseImpl impl
     let tr := implTrace script now.log
     let pf := d.prev.f.getD 0
     let ep := expectedPath d.root d.lastTree pf
     let routeMsg : Option String :=
-      if conforms ev pf (planOf o.captures ep .focusTgt) tr then none
+      if now.e then none   -- the dispatch was cut short by a returned error (judged by errChecks)
+      else if conforms ev pf (planOf o.captures ep .focusTgt) tr then none
       else if conforms ev pf (planOf o.captures d.prev.p .focusTgt) tr then
         some s!"FAIL stale-path: routed over the stored path {d.prev.p}, but the drawn chain of the focused widget {pf} is {ep}"
       else some s!"FAIL routing: calls do not follow capture/target/bubble over the drawn chain {ep} of the focused widget {pf}"
-    let (cm, hov) := commonChecks pf d.prev.x d.hover script [] now (some false)
+    let (cm, hov) := commonChecks pf d.prev.x d.hover script [] now (some false) fails
     let v := firstMsg [routeMsg, cm, pinvMsg d.root d.lastTree now]
     pure ({ d with model := m, prev := now, hover := hov },
-      s!"{stateStr m}\t{impl}\t{v}")
+      s!"{stateStr m merr}\t{impl}\t{v}")
   | "upd" :: rest =>
     let (t, rest) ← pTreeKw "T" rest
-    let (script, _) ← pScript rest
-    let o := mkOracle d.caps script
-    let m := updatePath o fuelDefault (fresh d.model) t
+    let (script, fails, _) ← pScriptE rest
+    let eo := mkEOracle d.caps script fails
+    let m := eUpdatePath eo fuelDefault (fresh d.model) t
     let now ← parseImpl impl
     let pf := d.prev.f.getD 0
     let pathMsg : Option String :=
@@ -354,7 +417,7 @@ def stepState (d : DS) (toks : Toks) (impl : String) : Option (DS × String) := 
         else if now.f != some pf ∨ !now.log.isEmpty then some "FAIL path: focus drawn but handlers were called"
         else none
       | none => none
-    let (cm, hov) := commonChecks pf d.prev.x d.hover script [] now none
+    let (cm, hov) := commonChecks pf d.prev.x d.hover script [] now none fails
     pure ({ d with model := m, prev := now, hover := hov, lastTree := t },
       s!"{stateStr m}\t{impl}\t{firstMsg [pathMsg, pinvMsg d.root t now, cm]}")
   | "setframe" :: r :: rest =>
@@ -368,74 +431,80 @@ def stepState (d : DS) (toks : Toks) (impl : String) : Option (DS × String) := 
       s!"{stateStr m}\t{impl}\t{firstMsg [cm, pinvMsg d.root d.lastTree now]}")
   | "mouse" :: c :: r :: rest =>
     let c ← c.toInt?; let r ← r.toInt?
-    let (script, _) ← pScript rest
-    let o := mkOracle d.caps script
-    let m := mouseHandleEvent o fuelDefault (fresh d.model) c r
+    let (script, fails, _) ← pScriptE rest
+    let eo := mkEOracle d.caps script fails
+    let o := eo.o
+    let (m, merr) := eMouseHandleEvent eo fuelDefault (fresh d.model) c r
     let now ← parseImpl impl
     let tr := implTrace script now.log
     let ev := Ev.mouse c r
     let pf := d.prev.f.getD 0
     let wantHits := underRoot d.frameTree c r
     let hitMsg : Option String :=
-      if now.h != wantHits then some s!"FAIL hit: hit list {hitsStr now.h} but surfaces under the pointer are {hitsStr wantHits}" else none
+      if now.e then none
+      else if now.h != wantHits then some s!"FAIL hit: hit list {hitsStr now.h} but surfaces under the pointer are {hitsStr wantHits}" else none
     let routed := routedPart ev tr
     let routeMsg : Option String :=
+      if now.e then none else
       match now.h.getLast? with
       | none => if routed.isEmpty then none else some "FAIL mouse-routing: nothing under the pointer but the event was offered"
       | some tg =>
         if conforms ev pf (planOf o.captures (now.h.map (·.w)) (.tgt tg.w)) routed then none
         else some s!"FAIL mouse-routing: calls do not follow capture/target/bubble over hit list {hitsStr now.h}"
-    let (cm, hov) := commonChecks pf d.prev.x d.hover script [] now (if now.h.isEmpty then none else some false)
+    let (cm, hov) := commonChecks pf d.prev.x d.hover script [] now
+      (if now.e then none else if now.h.isEmpty then none else some false) fails
     pure ({ d with model := m, prev := now, hover := hov },
-      s!"{stateStr m}\t{impl}\t{firstMsg [hitMsg, routeMsg, cm, pinvMsg d.root d.lastTree now]}")
+      s!"{stateStr m merr}\t{impl}\t{firstMsg [hitMsg, routeMsg, cm, pinvMsg d.root d.lastTree now]}")
   | "mupd" :: rest =>
     let (t, rest) ← pTreeKw "T" rest
-    let (script, _) ← pScript rest
-    let o := mkOracle d.caps script
-    let m := mouseUpdate o fuelDefault (fresh d.model) t
+    let (script, fails, _) ← pScriptE rest
+    let eo := mkEOracle d.caps script fails
+    let (m, merr) := eMouseUpdate eo fuelDefault (fresh d.model) t
     let now ← parseImpl impl
     let hitMsg : Option String :=
+      if now.e then none else
       if !d.prev.m then (if now.h != d.prev.h then some "FAIL hit: no pointer but hit list changed" else none)
       else match d.model.mouse with
         | some (c, r) =>
           let wantHits := underRoot t c r
           if now.h != wantHits then some s!"FAIL hit: hit list {hitsStr now.h} but surfaces under the pointer are {hitsStr wantHits}" else none
         | none => none
-    let (cm, hov) := commonChecks (d.prev.f.getD 0) d.prev.x d.hover script [] now none
+    let (cm, hov) := commonChecks (d.prev.f.getD 0) d.prev.x d.hover script [] now none fails
     pure ({ d with model := m, prev := now, hover := hov },
-      s!"{stateStr m}\t{impl}\t{firstMsg [hitMsg, cm, pinvMsg d.root d.lastTree now]}")
+      s!"{stateStr m merr}\t{impl}\t{firstMsg [hitMsg, cm, pinvMsg d.root d.lastTree now]}")
   | "mexit" :: cl :: rest =>
-    let (script, _) ← pScript rest
-    let o := mkOracle d.caps script
+    let (script, fails, _) ← pScriptE rest
+    let eo := mkEOracle d.caps script fails
     let s0 := fresh d.model
-    let m := mouseExit o fuelDefault (if cl = "1" then { s0 with mouse := none } else s0)
+    let (m, merr) := eMouseExit eo fuelDefault (if cl = "1" then { s0 with mouse := none } else s0)
     let now ← parseImpl impl
-    let (cm, hov) := commonChecks (d.prev.f.getD 0) d.prev.x d.hover script [] now none
+    let (cm, hov) := commonChecks (d.prev.f.getD 0) d.prev.x d.hover script [] now none fails
     let closeMsg : Option String :=
+      if now.e then none else
       if !hov.isEmpty ∨ !now.h.isEmpty then some s!"FAIL hover: widgets {hov} still entered after the pointer left" else none
     pure ({ d with model := m, prev := now, hover := hov },
-      s!"{stateStr m}\t{impl}\t{firstMsg [cm, closeMsg, pinvMsg d.root d.lastTree now]}")
+      s!"{stateStr m merr}\t{impl}\t{firstMsg [cm, closeMsg, pinvMsg d.root d.lastTree now]}")
   | "tfin" :: rest =>
     -- the vaxis.FocusIn arm of Run: mouseHandler.mouseEnter(root)
-    let (script, _) ← pScript rest
-    let o := mkOracle d.caps script
-    let m := mouseEnter o fuelDefault (fresh d.model) d.root
+    let (script, fails, _) ← pScriptE rest
+    let eo := mkEOracle d.caps script fails
+    let (m, merr) := eMouseEnter eo fuelDefault (fresh d.model) d.root
     let now ← parseImpl impl
-    let (cm, hov) := commonChecks (d.prev.f.getD 0) d.prev.x d.hover script [] now none
+    let (cm, hov) := commonChecks (d.prev.f.getD 0) d.prev.x d.hover script [] now none fails
     let enterMsg : Option String :=
       if !hov.contains d.root then some s!"FAIL hover: root widget {d.root} not entered after terminal FocusIn" else none
     pure ({ d with model := m, prev := now, hover := hov },
-      s!"{stateStr m}\t{impl}\t{firstMsg [cm, enterMsg, pinvMsg d.root d.lastTree now]}")
+      s!"{stateStr m merr}\t{impl}\t{firstMsg [cm, enterMsg, pinvMsg d.root d.lastTree now]}")
   | "cmd" :: rest =>
     let rest ← pKw "C" rest
     let (c, rest) ← pCmd rest
-    let (script, _) ← pScript rest
-    let o := mkOracle d.caps script
-    let m := handleCommand o fuelDefault (fresh d.model) c
+    let (script, fails, _) ← pScriptE rest
+    let eo := mkEOracle d.caps script fails
+    let m := eHandleCommand eo fuelDefault (fresh d.model) c
     let now ← parseImpl impl
     -- the command itself counts as the answer of a virtual call number -1: prepend its effects
     let pre := c.flatten
-    let (cm, hov) := commonChecks (d.prev.f.getD 0) d.prev.x d.hover script pre now none
+    let (cm, hov) := commonChecks (d.prev.f.getD 0) d.prev.x d.hover script pre now none fails
     pure ({ d with model := m, prev := now, hover := hov },
       s!"{stateStr m}\t{impl}\t{firstMsg [cm, pinvMsg d.root d.lastTree now]}")
   | _ => none
